@@ -27,6 +27,7 @@ RULE = (
     "caller's input dict has the same keys and the very same value objects; a bound object reaches the node as the "
     "very object that was bound; no value tagged for run A occurs in the arguments of run B. Non-trivial: >= 2 runs "
     "of a graph with a mutating node; distinct = (program shape, history kind)."
+    ' Directed: a multi-output interrupt whose handler returns one shared dict object on every call; a value bound for a defaulted parameter of a node outside the graph-level selection (flat and nested).'
 )
 ASSUMPTIONS = ["the mutating functions are ours; expectations are computed from the spec, never from a first run"]
 DECIDING = ["runs_checked", "defaults_checked", "identity_checked"]
